@@ -1478,6 +1478,47 @@ def r01x(rep, F):
     rep.require_count('R01x', 'loops that write parallel arrays', n, 5)
 
 
+def r01A(rep, F, rule='R01A', pat='/geometric/planners/sst/'):
+    rep.rule(rule, 'the approximate difference and the stored path move together: where solve() assembles the reported path from a member vector '
+                   '(prevSolution_[i]) and reports a local difference with it (setApproximate(approxdif)), every block that assigns the difference '
+                   'also rebuilds that vector (clear + push_back) -- the pair (difference, path) always describes one motion.  A rebuild under '
+                   'a narrower condition than the assignment leaves an older path (e.g. an exact one kept from an earlier call) attached to a '
+                   'status, flag and difference that belong to another')
+    n = 0
+    for f in F.functions:
+        if not f.body or pat not in f.file or not f.name.endswith('::solve'):
+            continue
+        V = None
+        for c in f.walk():
+            if (c.get('callee') or '').endswith(APPENDS):
+                m = re.search(r'operator\[\]\(this\.(\w+),', nofp(f.fp(args(f, c)[0])))
+                if m:
+                    V = m.group(1)
+        D = None
+        for c in f.walk():
+            if (c.get('callee') or '').endswith('::setApproximate') and args(f, c):
+                D = key(f, args(f, c)[0])
+            if (c.get('callee') or '').endswith('ProblemDefinition::addSolutionPath') and len(args(f, c)) >= 3 and key(f, args(f, c)[2]):
+                D = key(f, args(f, c)[2])
+        if V is None or D is None:
+            continue
+        for x in f.walk():
+            if x['k'] == 'BinaryOperator' and x.get('op') == '=' and key(f, x['ch'][0]) == D:
+                blk = next((a for a in f.ancestors(x['id']) if a['k'] == 'CompoundStmt'), None)
+                if blk is None:
+                    continue
+                n += 1
+                cleared = any((c.get('callee') or '').endswith('::clear') and nofp(f.fp(c['ch'][0])) == 'this.' + V for c in f.walk(blk['id']))
+                filled = any((c.get('callee') or '').endswith('::push_back') and nofp(f.fp(c['ch'][0])) == 'this.' + V for c in f.walk(blk['id']))
+                ok = cleared and filled
+                k = len([1 for o in rep.obl if o['rule'] == rule and o['function'] == f.name])
+                rep.add(rule, f.name, 'difference-with-path#%d' % k, ok, f.where(x),
+                        '%s is rebuilt in the block that assigns %s' % (V, nofp(D)) if ok else
+                        '%s is assigned here but %s, from which the reported path is assembled, is not rebuilt in the same block: the reported '
+                        'difference and the reported path can describe different motions' % (nofp(D), V))
+    rep.require_count(rule, 'assignments of the reported approximate difference', n, 1)
+
+
 def run(rep):
     units = P.geometric_units() + P.multilevel_units() + P.base_units() + [facts.src('base', 'goals', 'src', g) for g in
                                                                           ('GoalRegion.cpp', 'GoalState.cpp', 'GoalStates.cpp')]
@@ -1512,6 +1553,7 @@ def run(rep):
     r01r(rep, F)
     r01w(rep, F)
     r01x(rep, F)
+    r01A(rep, F)
     # R01s: the (best distance / cost, what it belongs to) pairing rule of C04 (R04j), evaluated here over every geometric planner:
     # the reported goal difference and the path / node / flag it describes are updated together
     from rules import c04
